@@ -137,3 +137,50 @@ func cmdSweep(args []string) int {
 }
 
 var _ = os.Getenv
+
+// stdModelConformance proves every verifStd* program of clients/stdmodels.go from the engine's models and sweeps the
+// real standard-library function behind it on boundary-biased vectors (bounded).
+func (v *Verifier) stdModelConformance(n int, seed int64) (map[string]interface{}, []string) {
+	var names []string
+	for name := range v.specs.Funcs {
+		if strings.HasPrefix(name, "secp256k1.verifStd") {
+			names = append(names, name)
+		}
+	}
+	sort.Strings(names)
+	var bad []string
+	proved, runs := 0, 0
+	for _, name := range names {
+		fr, fc := v.prog.Lookup(name), v.specs.Funcs[name]
+		if fr == nil {
+			bad = append(bad, name+": not found")
+			continue
+		}
+		res, err := v.CheckFunc(fr, fc, 20, false)
+		if err != nil {
+			bad = append(bad, name+": "+err.Error())
+			continue
+		}
+		ok := true
+		for _, r := range res {
+			if r.Status != "discharged" {
+				ok = false
+				bad = append(bad, name+": the model does not imply "+r.Name)
+			}
+		}
+		if ok {
+			proved++
+		}
+		sw := v.sweepFunc(name, n, seed, 3)
+		runs += sw.Runs
+		if sw.False > 0 {
+			bad = append(bad, name+": the real function contradicts the statement: "+truncate(sw.Witness, 400))
+		}
+		if sw.Runs == 0 {
+			bad = append(bad, name+": no run of the real function was evaluated ("+sw.Skipped+")")
+		}
+	}
+	return map[string]interface{}{"label": "bounded (not counted in obligations/discharged)",
+		"what":     "each trusted standard-library model is stated as a contract on a one-line wrapper (clients/stdmodels.go); the statement is proved from the model and evaluated on runs of the real function",
+		"wrappers": len(names), "proved_from_model": proved, "real_runs": runs, "problems": bad}, bad
+}
